@@ -82,7 +82,9 @@ def call_value(ex, st, f, pos, named, stars, sargs, node, ov=None):
         k = BY_OBJECT.get(id(getattr(f.obj, '__func__', f.obj))) or contract_by_qual(f.obj)
         if k is not None: return apply_contract(ex, st, k, None, pos, named, stars, sargs, node)
         if isinstance(f.obj, type) and issubclass(f.obj, BaseException):
-            return [(st, PExc(f.obj.__name__, val=Val.Obj(fresh('exc', IntSort())), where='raise'))]
+            r = fresh('exc', IntSort()); st = st.copy()
+            st.assume(inst_of(r, f.obj), inst_of(r, BaseException))
+            return [(st, PExc(f.obj.__name__, val=Val.Obj(r), where='raise'))]
         if isinstance(f.obj, type):
             k = C.CONTRACTS.get(f'new:{f.obj.__name__}')
             if k is not None: return apply_contract(ex, st, k, None, pos, named, stars, sargs, node)
@@ -326,7 +328,8 @@ def apply_bound(ex, st, k, args, site):
         if rc.ensures is not None:
             for f in rc.ensures(View(s2, args), excv): s2.assume(f)
         s2.label(f'{k.key}:raises:{rc.label}')
-        if ex.feasible(s2): outs.append((s2, Raise(PExc(rc.cls, val=excv, where='callee'))))
+        if rc.cls == 'DeliveryError': s2.ghost['delivery_failed'] = True
+        if ex.feasible(s2): outs.append((s2, Raise(PExc(rc.cls, val=excv, where=rc.where or 'callee'))))
     return outs
 
 
@@ -386,7 +389,9 @@ def isinstance_cond(ex, st, v, cls):
     if issubclass(_blk.EventCond, cls): parts.append(Val.is_EC(z))
     if issubclass(_fsm.Goto, cls): parts.append(Val.is_Goto(z))
     if issubclass(type(C.REAL_UNDEF()), cls): parts.append(Val.is_Undef(z))
-    if not _is_container_abc(cls):
+    if cls is _blk.EventCond or cls is _fsm.Goto:
+        pass        # frozen dataclasses modelled as values (EC / Goto), never as heap objects
+    elif not _is_container_abc(cls):
         # encoding assumption: mappings / sequences / sets that reach edzed are the built-in ones (dict, tuple, list,
         # str, frozenset); user-defined container classes are outside the model
         parts.append(And(Val.is_Obj(z), inst_of(Val.ref(z), cls)))
@@ -427,34 +432,30 @@ _opq_inst = Function('opq_instance_of', IntSort(), IntSort(), BoolSort())
 
 
 def inst_of(ref, cls):
-    """heap object `ref` is an instance of real class `cls` (uninterpreted; lattice facts via class_axioms)"""
+    """heap object `ref` is an instance of real class `cls`.  Defined as the conjunction of one uninterpreted bit per class
+    over `cls` and all its (non-trivial) base classes, so that `instance of A  =>  instance of B` holds by construction for
+    every base class B of A -- no quantified lattice axioms are needed."""
     if cls is object: return BoolVal(True)
-    return _inst(ref, IntVal(class_id(cls)))
+    bits = [_inst(ref, IntVal(class_id(b))) for b in cls.__mro__ if b is not object and getattr(b, '__module__', '') != 'abc'
+            and b.__name__ not in ('Generic',)]
+    return And(*bits) if len(bits) > 1 else bits[0]
 
 
 def opq_inst(k, cls):
     if cls is object: return BoolVal(True)
     if cls in (str, int, float, bool, dict, tuple, list, type(None)): return BoolVal(False)
-    if getattr(cls, '__module__', '').startswith('edzed'):
-        return BoolVal(False)        # encoding: instances of edzed classes are heap objects (Obj), never opaque user values
+    if getattr(cls, '__module__', '').startswith('edzed') or (isinstance(cls, type) and issubclass(cls, BaseException)):
+        return BoolVal(False)        # encoding: instances of edzed classes and exceptions are heap objects (Obj), never opaque values
     return _opq_inst(k, IntVal(class_id(cls)))
 
 
+def exc_cls(name):
+    return C.exc_class(name)
+
+
 def lattice_axioms():
-    """subclass => superclass for the edzed base classes (quantified over all heap objects), and the
-    SBlock/CBlock exclusion that Block.__init__ enforces"""
-    names = ['Block', 'SBlock', 'CBlock', 'Addon', 'AddonPersistence', 'AddonAsync', 'AddonMainTask', 'AddonAsyncInit', 'FSM', 'Not',
-             'ControlBlock']
-    cl = [C_class(n) for n in names if C_class(n) is not None]
-    r = Int('r!lat')
-    out = []
-    for a in cl:
-        for b in cl:
-            if a is not b and issubclass(a, b):
-                out.append(ForAll([r], Implies(inst_of(r, a), inst_of(r, b))))
-    sb, cb = C_class('SBlock'), C_class('CBlock')
-    out.append(ForAll([r], Not(And(inst_of(r, sb), inst_of(r, cb)))))
-    return out
+    """(kept for the callers' sake) the class lattice needs no axioms: see inst_of"""
+    return []
 
 
 def class_axioms(ref, classes):
